@@ -3000,6 +3000,20 @@ class Interp:
             if args:
                 return fl[self.intval(args[0], n)]
             raise PathRaise("ValueError(item)", self.where(n))
+        if name == "diagonal" and v.ndim == 2:
+            return Arr([v.data[i][i] for i in range(min(v.shape))], 1)
+        if name == "setdiag" and v.ndim == 2:
+            vals_ = args[0]
+            k_ = min(v.shape)
+            vals_ = self.to_arr(vals_, n).flat() if isinstance(vals_, (Arr, list, tuple)) else [self.scalar(vals_, n)] * k_
+            if len(vals_) < k_:
+                raise self.unsupported("setdiag with a short value array", n)
+            for i in range(k_):
+                v.data[i][i] = vals_[i]
+            self.after_write(v)
+            return None
+        if name == "trace" and v.ndim == 2:
+            return sum((v.data[i][i] for i in range(min(v.shape))), Poly())
         if name in ("max", "min"):
             ax = kw.get("axis", args[0] if args else None)
             if ax is not None and v.ndim == 2:
@@ -4127,6 +4141,19 @@ class Interp:
         if name == "reshape" and len(args) >= 2:
             shp_ = args[1] if isinstance(args[1], tuple) else tuple(args[1:])
             return self.arr_method(self.to_arr(args[0], n), "reshape", [shp_], {}, n)
+        if name in ("flatnonzero", "nonzero", "argwhere") and len(args) == 1:
+            v_ = args[0]
+            if isinstance(v_, BoolArr):
+                flags = list(v_.flat)
+                shape_ = v_.shape
+            else:
+                a_ = self.to_arr(v_, n)
+                flags = [self.truth(x, n) for x in a_.flat()]
+                shape_ = a_.shape
+            if name == "flatnonzero" or len(shape_) == 1:
+                idx_ = Arr([Poly.const(i) for i, f_ in enumerate(flags) if f_], 1)
+                return idx_ if name == "flatnonzero" else (idx_,)
+            raise self.unsupported("np.%s of a 2-D array" % name, n)
         if name == "cumsum" and len(args) == 1 and "axis" not in kw:
             fl_ = self.to_arr(args[0], n).flat()
             out_, acc_ = [], Poly()
@@ -4177,8 +4204,20 @@ class Interp:
         if name == "hypot":
             x, y = self.scalar(args[0], n), self.scalar(args[1], n)
             return poly.atom("norm", x * x + y * y)
-        if name == "isfinite" or name == "isnan":
-            return name == "isfinite"
+        if name in ("isfinite", "isnan", "isinf"):
+            # whether a computed number is finite is not a property of real arithmetic (a singular solve, an overflow): both
+            # outcomes are explored, one decision per call (all elements alike)
+            v_ = args[0]
+            flat_ = v_.flat() if isinstance(v_, Arr) else [self.scalar(v_, n)]
+            if all(isinstance(x, Poly) and x.const_value() is not None for x in flat_):
+                fin = True
+            else:
+                self.finite_counter = getattr(self, "finite_counter", 0) + 1
+                fin = self.decide_sign(Poly.var("all_finite#%d" % self.finite_counter), {1}, "the computed values are finite")
+            res_ = fin if name == "isfinite" else (not fin)
+            if isinstance(v_, Arr):
+                return BoolArr([res_] * len(flat_), v_.shape)
+            return res_
         if name == "block":
             rows = args[0]
             if isinstance(rows, list) and rows and all(isinstance(r, list) for r in rows):
@@ -4415,7 +4454,7 @@ def _dotp(r, c):
 
 
 OPNAME = {ast.Lt: "<", ast.LtE: "<=", ast.Gt: ">", ast.GtE: ">=", ast.Eq: "==", ast.NotEq: "!="}
-ARR_METHODS = {"eliminate_zeros", "sum_duplicates", "setflags", "tobytes", "tostring", "__array__", "squeeze", "conj", "conjugate", "all", "item", "max", "min", "fill", "tocsr", "tocsc", "tolil", "todense", "toarray", "tocoo", "any", "view", "copy", "dot", "transpose", "flatten", "ravel", "tolist", "astype", "reshape", "sum", "round"}
+ARR_METHODS = {"diagonal", "setdiag", "trace", "eliminate_zeros", "sum_duplicates", "setflags", "tobytes", "tostring", "__array__", "squeeze", "conj", "conjugate", "all", "item", "max", "min", "fill", "tocsr", "tocsc", "tolil", "todense", "toarray", "tocoo", "any", "view", "copy", "dot", "transpose", "flatten", "ravel", "tolist", "astype", "reshape", "sum", "round"}
 BUILTIN_NAMES = {"format", "divmod", "slice", "map", "filter", "sorted", "getattr", "hasattr", "setattr", "next", "iter", "id", "abs", "bool", "open", "str", "repr", "set", "frozenset", "dict", "isinstance", "issubclass", "type", "len", "range", "zip", "enumerate", "reversed", "list", "tuple",
                  "all", "any", "sum", "max", "min", "super", "print", "round", "int", "abs", "NotImplementedError"}
 
@@ -4444,7 +4483,9 @@ def explore(pkg, run, hook=None, max_paths=256):
                 g_.close()       # abandoned generators: let their threads unwind
         results.append(res)
         if len(results) > max_paths:
-            raise Unsupported("more than %d paths" % max_paths)
+            e_ = Unsupported("more than %d paths" % max_paths)
+            e_.partial = results           # what was explored so far (a failing path among them is still a failing path)
+            raise e_
         for k in range(len(script), len(it.script)):
             stack.append(it.script[:k] + [False])
     return results
